@@ -117,6 +117,17 @@ fn generate(a: &Args) -> i32 {
                         sink.count(&format!("iter.max_events.{}", iter2.split(' ').take(2).collect::<Vec<_>>().join(".")));
                         sink.case(&format!("e2e iter {} {} | {}", cfg2.tokens(true), ty.tokens(), items), &iter2);
                     }
+                    // the alias/anchor ratio is a per-document quantity too (C07): judged at every DocumentEnd, so a
+                    // document that violates it is rejected at every position (multiplier 0: any document with an alias;
+                    // min_aliases 0: any document without an anchor)
+                    for (min_aliases, mult) in [(1usize, 0usize), (1, 1), (0, 1)] {
+                        let cfg3 = Cfg { budget: Some(Budget { enforce_alias_anchor_ratio: true, alias_anchor_min_aliases: min_aliases,
+                                                              alias_anchor_ratio_multiplier: mult, ..Budget::default() }),
+                                         limits: AliasLimits::default(), ..cfg.clone() };
+                        let iter3 = run_iter(&text, ty, &cfg3);
+                        sink.count(&format!("iter.ratio.{}", iter3.split(' ').take(2).collect::<Vec<_>>().join(".")));
+                        sink.case(&format!("e2e iter {} {} | {}", cfg3.tokens(true), ty.tokens(), items), &iter3);
+                    }
                 }
 
                 // ---- implementation-only oracle
@@ -176,7 +187,7 @@ fn generate(a: &Args) -> i32 {
     let nt = sink.stats.get("distinct_nontrivial").copied().unwrap_or(0);
     sink.finish(&a.out, "docs", serde_json::json!({
         "distinct_nontrivial": nt,
-        "rule": "every sequence of document kinds up to length 2 (quick: plus a third of length 3; thorough: all of length 3 and a quarter of length 4) over 22 kinds (two-document kinds whose second document has no `---` after a `...` (after a type error / after a valid document), a type error after alias replay used up a tightened replay allowance, valid map/seq/scalar, empty, ~, null, anchor-defining (scalar anchor; container-only anchor), aliasing an earlier document's anchor, type error after consumed events, type errors raised on a merely PEEKED event (unit given a value, unit variant given a payload), unterminated flow, with `...`, trailing comment, syntax error, duplicate key, documents that fail before producing an event (stray `]`, alias to nothing)), with and without a leading `---`, x {untyped, struct, struct with unit / enum fields} target x {default budget, no budget, max_depth 3, max_total_replayed_events 3}: batch (from_multiple), iterator (read) and single-document entry point vs the model; plus the iterator under max_events 4 / 6 / 7 for one target per stream (per-document event accounting on the normal and on the recovery path); oracle: batch = list of per-document results, iterator = batch when nothing fails, single rejects a second document, anchors invisible across documents, iterator resumes after a type-level error. Non-trivial = streams with more than one document.",
+        "rule": "every sequence of document kinds up to length 2 (quick: plus a third of length 3; thorough: all of length 3 and a quarter of length 4) over 22 kinds (two-document kinds whose second document has no `---` after a `...` (after a type error / after a valid document), a type error after alias replay used up a tightened replay allowance, valid map/seq/scalar, empty, ~, null, anchor-defining (scalar anchor; container-only anchor), aliasing an earlier document's anchor, type error after consumed events, type errors raised on a merely PEEKED event (unit given a value, unit variant given a payload), unterminated flow, with `...`, trailing comment, syntax error, duplicate key, documents that fail before producing an event (stray `]`, alias to nothing)), with and without a leading `---`, x {untyped, struct, struct with unit / enum fields} target x {default budget, no budget, max_depth 3, max_total_replayed_events 3}: batch (from_multiple), iterator (read) and single-document entry point vs the model; plus the iterator under max_events 4 / 6 / 7 and under the alias/anchor ratio budgets (min_aliases, multiplier) = (1,0) / (1,1) / (0,1) for one target per stream (per-document accounting on the normal and on the recovery path; the ratio is judged at every DocumentEnd); oracle: batch = list of per-document results, iterator = batch when nothing fails, single rejects a second document, anchors invisible across documents, iterator resumes after a type-level error. Non-trivial = streams with more than one document.",
     }));
     0
 }
